@@ -40,6 +40,8 @@ def gen(rng, n_cases, algos=None, gens=(2, 5)):
                "tell_only": int(rng.randint(2, 5)) if rng.randint(4) == 0 else 0,
                # documented constructor flag of the DE family (non-default value)
                "adv_init": bool(rng.randint(4) != 0),
+               # termination by an evaluation budget that is not a multiple of the population size
+               "n_evals_extra": int(rng.randint(1, pop_size)) if rng.randint(4) == 0 else 0,
                "pseed": int(rng.randint(1000)), "grid": [None, None, 0.25, 0.1][rng.randint(4)],
                "shift": float(rng.choice([-1.0, -0.3, 0.0, 0.0, 0.5, 3.0])),
                "pm": bool(rng.randint(5) == 0), "n_gen": int(rng.randint(gens[0], gens[1] + 1)),
@@ -171,7 +173,11 @@ def run(case, replay=None):
         import contextlib, io
         with contextlib.redirect_stdout(io.StringIO()):
             algo = make_algorithm(c, prob)
-        algo.setup(prob, termination=("n_gen", c["n_gen"]), seed=c["seed"], verbose=False)
+        if c.get("n_evals_extra") and c["algo"] not in ("ga", "ea-dex"):
+            term = ("n_evals", c["pop_size"] * (c["n_gen"] - 1) + c["n_evals_extra"])
+        else:
+            term = ("n_gen", c["n_gen"])
+        algo.setup(prob, termination=term, seed=c["seed"], verbose=False)
         surv = algo.survival
         orc = comp_surv.Oracles()
         handed = {}
